@@ -120,6 +120,11 @@ def resolve_moved(prog, path):
         c1 = [b for n, b in prog.bodies.items() if b.kind == "Fn" and _tail(n, 1) == t1]
         if len(c1) == 1:
             return c1[0]
+        # a method that moved to another type (state split: `Pp::iterate_directive` -> `PpParser::iterate_directive`), or became a free
+        # function / a method: the only function of the crate that still carries the role's name
+        c2 = [b for n, b in prog.bodies.items() if b.kind != "Closure" and not n.startswith("<") and "<impl " not in n and _tail(n, 1) == t1]
+        if len(c2) == 1:
+            return c2[0]
     return None
 
 
